@@ -36,7 +36,6 @@ def opSample : J.Op := fun j => do
   let nc ← J.field j "ncross" J.nat
   let np ← J.field j "nparent" J.nat
   let decn ← J.fieldD j "decn" (J.list J.nat) []
-  let sus ← J.fieldD j "sus" (J.list J.nat) []
   let xmap ← J.fieldD j "xmap" (J.mat J.nat) []
   let rem ← J.fieldD j "rem" (J.list J.nat) []
   let perm ← J.fieldD j "perm" (J.list J.nat) []
@@ -53,8 +52,12 @@ def opSample : J.Op := fun j => do
     if (options decn).length != 0 then checkArrange nc np orders rowperms
     pure <| exceptToJson (sampleInteger decn nc np rem perm orders rowperms)
   | "real" => do
-    if sus.length == nc * np then checkArrange nc np orders rowperms
-    pure <| exceptToJson (sampleReal sus nc np orders rowperms)
+    -- the sampler is part of the model: weights, argsort order, uniform offset, shuffle of the draws
+    let w ← J.field j "w" (J.list J.rat)
+    let sigma ← J.field j "sigma" (J.list J.nat)
+    let offset ← J.field j "offset" J.rat
+    checkArrange nc np orders rowperms
+    pure <| exceptToJson (sampleRealSus w nc np sigma offset perm orders rowperms)
   | "mate_subset" => do
     checkOracles decn nc rem perm
     if decn.length != 0 && !isPermOfRange nc perm2 then J.fail "oracle: perm2"
@@ -64,8 +67,11 @@ def opSample : J.Op := fun j => do
     if (options decn).length != 0 && !isPermOfRange nc perm2 then J.fail "oracle: perm2"
     pure <| exceptToJson (sampleMateInteger decn xmap nc rem perm perm2)
   | "mate_real" => do
-    if sus.length == nc && !isPermOfRange nc perm2 then J.fail "oracle: perm2"
-    pure <| exceptToJson (sampleMateReal sus xmap nc perm2)
+    let w ← J.field j "w" (J.list J.rat)
+    let sigma ← J.field j "sigma" (J.list J.nat)
+    let offset ← J.field j "offset" J.rat
+    if !isPermOfRange nc perm2 then J.fail "oracle: perm2"
+    pure <| exceptToJson (sampleMateRealSus w xmap nc sigma offset perm perm2)
   | _ => J.fail s!"unknown encoding {enc}"
 
 /-- the Spec oracle of the configuration clauses, evaluated on an observed `xconfig` -/
@@ -153,10 +159,27 @@ def opUcBounds : J.Op := fun j => do
   | .ok (lo, up) => pure <| J.obj [("lower", J.ofList J.ofNat lo), ("upper", J.ofList J.ofNat up)]
   | .error e => pure <| J.obj [("error", J.ofStr e)]
 
+def opEmbvBounds : J.Op := fun j => do
+  let nc ← J.field j "ncross" J.nat
+  let np ← J.field j "nparent" J.nat
+  let nm ← J.field j "nmating" (J.list J.nat)
+  let nx ← J.field j "nxmap" J.nat
+  match SelProt.embvIntegerBounds nc np nm nx with
+  | .ok (lo, up) => pure <| J.obj [("lower", J.ofList J.ofNat lo), ("upper", J.ofList J.ofNat up)]
+  | .error e => pure <| J.obj [("error", J.ofStr e)]
+
+def opFamilyBounds : J.Op := fun j => do
+  let np ← J.field j "nparent" J.nat
+  let n ← J.field j "ntaxa" J.nat
+  match SelProt.familyVectorBounds np n with
+  | .ok _ => pure <| J.obj [("ok", J.ofBool true)]
+  | .error e => pure <| J.obj [("error", J.ofStr e)]
+
 def ops : List (String × J.Op) :=
   [("c07.sample", opSample), ("c07.spec", opSpec), ("c07.xmapix", opXmapix),
    ("c07.sorting", opSorting), ("c07.spec_topk", opSpecTopK),
    ("c07.mo_choice", opMoChoice), ("c07.spec_argmax", opSpecArgmax), ("c07.ndset_dist", opNdsetDist),
-   ("c07.uc_bounds", opUcBounds)]
+   ("c07.uc_bounds", opUcBounds), ("c07.family_bounds", opFamilyBounds),
+   ("c07.embv_bounds", opEmbvBounds)]
 
 end Drv.C07
